@@ -146,6 +146,16 @@ Theorem medium_cancel_does_not_close : forall k ops choice,
 Proof. exact medium_cancel_does_not_close_lemma. Qed.
 Print Assumptions medium_cancel_does_not_close.
 
+(* exactly-once hand-over: an item is delivered iff Send returned true, whatever the context *)
+Theorem medium_send_true_iff_delivered : forall s live v,
+  let r := med_step s (MSend live v) in
+  (snd r = MRSend true <-> c_buf (mch (fst r)) = c_buf (mch s) ++ [v])
+  /\ (snd r <> MRSend true -> mch (fst r) = mch s)
+  /\ (forall s' r', med_step_alt s (MSend live v) = Some (s', r') ->
+        r' = MRSend true /\ c_buf (mch s') = c_buf (mch s) ++ [v]).
+Proof. exact medium_send_true_iff_delivered_lemma. Qed.
+Print Assumptions medium_send_true_iff_delivered.
+
 (* cancelled Recv on the empty open QueueMedium, then Send, Close: the item is still received *)
 Example medium_nonvacuous :
   let s := med_run (minit_medium MQueue)
